@@ -7,6 +7,7 @@ every key-manager history (the freshness of an added key is a local fact: it is 
 Float laws used: none.
 -/
 import CambrianModel.Lemmas.MutLemmas
+import CambrianModel.Lemmas.MutGenLemmas
 namespace Cambrian.Props
 open Cambrian
 
@@ -39,6 +40,26 @@ theorem C13_init_optional (pc : PClass) (e : SNode) (p : Bool) (v' : VNode)
     (h : mutAcc pc (.opt e p) .onone (.osome v') = true) : mutAcc pc e (initialValue e) v' = true := by
   simp only [mutAcc, Bool.and_eq_true] at h
   exact h.2
+
+/-! ### the code-shaped model of `mutation::mutate` (`mutGen`: every random decision an oracle field) -/
+
+/-- The acceptor is not tighter than the code it describes: every result of the ALGORITHM `mutGen` - for every oracle
+    the random generator can produce for that probability class, every spec, every conforming value - is accepted by
+    `mutAcc`.  (So a disagreement reported by K-ops is never an artefact of the acceptor.) -/
+theorem C13_refine (o : MutOracle) (pc : PClass) (hc : o.Consistent pc) (s : SNode) (p : Path) (vi : VNode)
+    (hs : wf s = true) (hi : conf s vi = true) : mutAcc pc s vi (mutGen o s p vi) = true :=
+  mutGen_mutAcc o pc hc s p vi hs hi
+
+/-- Hence C13 holds of the algorithm itself: with probability 0 (every Bernoulli outcome "no") it returns its input ... -/
+theorem C13_id_alg (o : MutOracle) (hc : o.Consistent .zero) (s : SNode) (p : Path) (vi : VNode)
+    (hs : wf s = true) (hi : conf s vi = true) : mutGen o s p vi = vi :=
+  mutAcc_zero_id s vi _ hi (mutGen_mutAcc o .zero hc s p vi hs hi)
+
+/-- ... and for every probability class every resizable map of the value changes its size by at most one, an added key
+    is fresh (nothing is overwritten), and at probability 1 every map is resized -/
+theorem C13_step_alg (o : MutOracle) (pc : PClass) (hc : o.Consistent pc) (s : SNode) (p : Path) (vi : VNode)
+    (hs : wf s = true) (hi : conf s vi = true) : resizeLocal pc s vi (mutGen o s p vi) = true :=
+  mutAcc_resizeLocal pc s vi _ hs hi (mutGen_mutAcc o pc hc s p vi hs hi)
 
 /-- non-vacuity: a map grows by one fresh key at probability 1; overwriting an element is not accepted -/
 example :
